@@ -99,8 +99,11 @@ def run(ck):
                         rel = rules.FLIP[rel]
                     kn = ks[0].split("::")[-1]
                     counts[kn] = counts.get(kn, 0) + (1 if rel in ("Gt", "Ge") else 0)
-                    ck.ob("CMP", p, "limit:%s@%d" % (kn, counts.get(kn, 0)), rel in ("Gt", "Ge"),
-                          "rejects when the value %s %s" % ({"Gt": ">", "Ge": ">="}.get(rel, str(rel)), kn) if rel else "comparison with %s is not enforced (%s)" % (kn, d), f.loc(cx["bb"]))
+                    # every protocol maximum is inclusive (all nine sites admit the value equal to the limit): `>=` would
+                    # refuse modules the protocol admits
+                    ck.ob("CMP", p, "limit:%s@%d" % (kn, counts.get(kn, 0)), rel == "Gt",
+                          "rejects exactly when the value > %s" % kn if rel == "Gt" else
+                          ("rejects when the value >= %s: the limit itself is refused although the maximum is inclusive" % kn if rel == "Ge" else "comparison with %s is not enforced (%s)" % (kn, d)), f.loc(cx["bb"]))
     for kn, fl in sorted(LIMIT_FLOORS.items()):
         ck.floor("CMP", "enforcement sites of " + kn, counts.get(kn, 0), fl)
     # segment offsets are interpreted as unsigned before their end is bounded (compilation indexes with `offset as usize`)
@@ -185,3 +188,159 @@ def run(ck):
     if rc:
         pubf = [f["name"] for f in rc["variants"][0]["fields"] if f["pub"]]
         ck.ob("WHO", W + "::machine::RunConfig", "fields-private", not pubf, "no public field: a suspended configuration cannot be constructed or altered outside the interpreter module" if not pubf else "public fields: %s" % pubf, "")
+
+    typing_rules(ck, crate("sc", W))
+
+
+# ---------------------------------------------------------------------------------------------------------------------
+# typing: the validator's instruction arms and its stack primitives against the WebAssembly validation algorithm
+TYPING_SPEC = os.path.join(os.path.dirname(os.path.dirname(os.path.abspath(__file__))), "spec", "wasm_typing.json")
+
+
+def _has(conds, kindpat, name, value):
+    return any(re.match(kindpat, k) and name in n and v == value for (k, n, v) in conds)
+
+
+def typing_rules(ck, c):
+    from vlib import typing
+    from .c01 import enum_switch
+    V = W + "::validate::"
+    vf = getfn(ck, "sc", W, V + "validate")
+    if not vf:
+        return
+    spec = json.load(open(TYPING_SPEC))
+    onames = [v["name"] for v in c.adts[W + "::types::OpCode"]["variants"]]
+    vsw = enum_switch(vf, 60)
+    if not ck.anchor(vsw is not None, "TAB", vf.path, "opcode dispatch in the validator"):
+        return
+    cache = {}
+    n = 0
+    for v, tb in vsw[1]["t"]:
+        name = onames[int(v)]
+        if tb not in cache:
+            cache[tb] = typing.arm_events(c, vf, sym.dominated(vf, tb))
+        got = [e for e in cache[tb] if e not in spec.get("redundant", {}).get(name, [])]
+        sp = spec["instructions"].get(name)
+        if not ck.anchor(sp is not None, "TAB", "typing:" + name, "instruction has a typing rule in spec/wasm_typing.json"):
+            continue
+        n += 1
+        ck.ob("TAB", "validate:" + name, "stack-effect", got == sp["events"],
+              "%s: %s" % (" ".join(sp["spec"]) or "[] -> []", "matches") if got == sp["events"] else
+              "validator does %s, the specification requires %s (%s)" % (got, sp["events"], " ".join(sp["spec"])), vf.loc(tb),
+              sample=dict(rule="TAB", instruction=name, validator=got, specification=sp["events"]))
+    ck.floor("TAB", "instructions whose stack effect equals the specification", n, 110)
+
+    # alignment table: 2^align <= width/8
+    f = getfn(ck, "sc", W, V + "ensure_alignment")
+    if f:
+        tnames = [v["name"] for v in c.adts[W + "::validate::Type"]["variants"]] if (W + "::validate::Type") in c.adts else []
+        want = {"I8": 0, "I16": 1, "I32": 2, "I64": 3}
+        sw = [(sb, st) for (sb, st) in f.switches() if any(x.get("rv", {}).get("k") == "discr" for x in f.stmts(sb))]
+        ok_all = bool(sw) and bool(tnames)
+        seen = {}
+        if ok_all:
+            sb, st = sw[0]
+            for v, tb in st["t"] + [["otherwise", st["o"]]]:
+                if f.term(tb)["k"] == "unreachable":
+                    continue
+                reg = sym.dominated(f, tb)
+                for cx in rules.comparisons(f):
+                    if cx["bb"] in reg:
+                        rel, d = rules.cmp_rejects(f, cx)
+                        k = op_const(cx["b"])
+                        oa = f.origins(cx["a"])
+                        if ("arg", 1) in oa and k is not None and rel is not None:
+                            lim = const_int(k)
+                            # rejects when num > lim  (or num != 0 for lim 0)
+                            bound = lim if rel == "Gt" else (lim - 1 if rel == "Ge" else (0 if (rel == "Ne" and lim == 0) else None))
+                            nm = tnames[int(v)] if v != "otherwise" else [x for x in tnames if x not in seen][0] if len([x for x in tnames if x not in seen]) == 1 else "?"
+                            seen[nm] = bound
+        ck.ob("TAB", f.path, "alignment-bounds", seen == want, "maximum alignment exponent per access width: %s (specification: %s)" % (seen, want), f.loc())
+
+    S = V + "ValidationState::"
+    # pop_opd
+    f = getfn(ck, "sc", W, S + "pop_opd")
+    if f:
+        pops = f.calls(r"Vec::<T, A>::pop$")
+        unk = [bi for bi in f.reachable() for s in f.stmts(bi) if s.get("rv", {}).get("k") == "agg" and s["rv"].get("variant") == "Unknown"]
+        ok = len(pops) == 1 and _has(conditions_at(f, pops[0][0]), r"cmp:Eq", "height", False)
+        ck.ob("DOM", f.path, "pops-only-above-frame-height", ok, "an operand is popped only when the stack is higher than the current frame's base (len != height)", f.loc())
+        ok = len(unk) == 1 and _has(conditions_at(f, unk[0]), r"cmp:Eq", "height", True) and _has(conditions_at(f, unk[0]), r"bool|call", "unreachable", True)
+        ck.ob("DOM", f.path, "unknown-only-in-unreachable-code", ok, "Unknown is produced only at the frame base of an unreachable frame", f.loc())
+        rr = f.reject_region()
+        under = [b for b in rr if _has(conditions_at(f, b), r"cmp:Eq", "height", True) and _has(conditions_at(f, b), r"bool|call", "unreachable", False)]
+        ck.ob("DOM", f.path, "underflow-rejected", bool(under), "popping at the frame base of a reachable frame is an error", f.loc())
+    # pop_expect_opd
+    f = getfn(ck, "sc", W, S + "pop_expect_opd")
+    if f:
+        enf_calls(ck, f, r"ValidationState::pop_opd$", "pop_opd")
+        eqs = [cx for cx in rules.comparisons(f) if cx["kind"] == "call" and cx["op"] in ("Eq", "Ne")]
+        good = []
+        for cx in eqs:
+            rel, d = rules.cmp_rejects(f, cx)
+            oa, ob = f.origins(cx["a"], deep=True), f.origins(cx["b"], deep=True)
+            if rel == "Ne" and (has_call_origin(oa, r"pop_opd$") and ("arg", 2) in ob or has_call_origin(ob, r"pop_opd$") and ("arg", 2) in oa):
+                good.append(cx)
+        ck.ob("CMP", f.path, "actual==expected-enforced", len(good) == 1, "a known operand type different from the expected type is rejected", f.loc())
+        # the two early returns: Ok(expect) when the popped type is unknown, Ok(actual) when nothing particular is expected
+        rets = []
+        for bi in f.reachable():
+            for s in f.stmts(bi):
+                if s.get("lhs") == [0, []] and s["rv"].get("k") == "agg" and s["rv"].get("variant") == "Ok":
+                    o = f.origins(s["rv"]["ops"][0])
+                    conds = conditions_at(f, bi)
+                    rets.append(("expect" if ("arg", 2) in o and not has_call_origin(o, r"pop_opd$") else "actual" if has_call_origin(o, r"pop_opd$") else "?",
+                                 [(k, v) for (k, nn, v) in conds if k == "call:is_unknown"]))
+        ok = ("expect", [("call:is_unknown", True)]) in rets and any(r[0] == "actual" and ("call:is_unknown", True) in r[1] and ("call:is_unknown", False) in r[1] for r in rets) \
+            and any(r[0] == "actual" and r[1] == [("call:is_unknown", False), ("call:is_unknown", False)] for r in rets)
+        ck.ob("RET", f.path, "unknown-handling", ok, "returns the expected type for an unknown operand, the actual type otherwise: %s" % rets, f.loc())
+    # push_ctrl
+    f = getfn(ck, "sc", W, S + "push_ctrl")
+    if f:
+        agg = [s["rv"] for bi in f.reachable() for s in f.stmts(bi) if s.get("rv", {}).get("k") == "agg" and s["rv"].get("adt", "").endswith("validate::ControlFrame")]
+        ok = len(agg) == 1
+        det = ""
+        if ok:
+            a = agg[0]
+            src = {fl: f.origins(op, deep=True) for fl, op in zip(a["fields"], a["ops"])}
+            k = op_const(a["ops"][a["fields"].index("unreachable")]) if "unreachable" in a["fields"] else None
+            ok = ("arg", 2) in src.get("is_if", ()) and ("arg", 3) in src.get("label_type", ()) and ("arg", 4) in src.get("end_type", ()) and \
+                ("arg", 3) not in src.get("end_type", ()) and ("arg", 4) not in src.get("label_type", ()) and \
+                has_call_origin(src.get("height", set()), r"::len$") and ("field", "opds") in src.get("height", ()) and k is not None and const_int(k) == 0
+            det = "is_if, label_type, end_type from the arguments in that order; height = opds.len(); unreachable = false"
+        ck.ob("DEFUSE", f.path, "frame-construction", ok, det or "%d ControlFrame constructions" % len(agg), f.loc())
+        ck.ob("DEFUSE", f.path, "frame-pushed", len(f.calls(r"Vec::<T, A>::push$")) == 1, "the frame is pushed on the control stack", f.loc(), nontrivial=False)
+    # pop_ctrl
+    f = getfn(ck, "sc", W, S + "pop_ctrl")
+    if f:
+        pe = enf_calls(ck, f, r"ValidationState::pop_expect_opd$", "pop_expect_opd(end_type)")
+        pp = f.calls(r"Vec::<T, A>::pop$")
+        hs = []
+        for cx in rules.comparisons(f):
+            rel, d = rules.cmp_rejects(f, cx)
+            o = f.origins(cx["a"], deep=True) | f.origins(cx["b"], deep=True)
+            if rel == "Ne" and has_call_origin(o, r"::len$") and ("field", "opds") in o and (("field", "height") in o or has_call_origin(o, r"Option::<T>::map$")):
+                hs.append(cx)
+        ok = len(hs) == 1 and len(pp) == 1 and len(pe) == 1 and f.dominates(hs[0]["bb"], pp[0][0]) and all(b in f.reach_from([pe[0][0]]) for b in [hs[0]["bb"]])
+        ck.ob("DOM", f.path, "results-popped-then-height-checked-then-frame-popped", ok,
+              "pop_ctrl pops the frame's result, rejects unless the operand stack is back at the frame's height, and only then removes the frame", f.loc())
+    # mark_unreachable
+    f = getfn(ck, "sc", W, S + "mark_unreachable")
+    if f:
+        tr = f.calls(r"Vec::<T, A>::truncate$")
+        ok = len(tr) == 1 and ("field", "height") in f.origins(tr[0][1]["args"][1], deep=True) and ("field", "opds") in f.origins(tr[0][1]["args"][0], deep=True)
+        ck.ob("DEFUSE", f.path, "truncates-to-frame-height", ok, "the operand stack is cut back to the frame's height", f.loc())
+        sets = [s for bi in f.reachable() for s in f.stmts(bi) if "lhs" in s and s["lhs"][1] and str(s["lhs"][1][-1]).endswith(":unreachable")]
+        ok = len(sets) == 1 and op_const(sets[0]["rv"].get("a", {})) is not None and const_int(op_const(sets[0]["rv"]["a"])) == 1
+        ck.ob("DEFUSE", f.path, "marks-frame-unreachable", ok, "frame.unreachable = true", f.loc())
+    # ControlStack::get: label n counts from the innermost frame
+    f = getfn(ck, "sc", W, V + "ControlStack::get")
+    if f:
+        g = f.calls(r"slice::<impl \[T\]>::get$")
+        ok = False
+        if len(g) == 1:
+            o = f.origins(g[0][1]["args"][1], deep=True)
+            subs = [a for a in o if a[0] == "bin" and a[1].startswith("Sub")]
+            ok = len(subs) >= 1 and ("lit", 1) in o and ("arg", 2) in o and has_call_origin(o, r"::len$")
+        ck.ob("DEFUSE", f.path, "index-from-top", ok, "frame n is stack[len - n - 1]", f.loc())
+        cmp_rejecting(ck, f, [("arg", 2)], [("call", r"::len$")], "Ge", "n>=len-is-None")
